@@ -35,21 +35,52 @@ func fileRunner(fn func(p *harness.Program) Result) RunFunc {
 	}
 }
 
+// fileRunnerEnum is fileRunner for enumeration-heavy properties.
+func fileRunnerEnum(fn func(p *harness.Program) Result) RunFunc {
+	return func(raw json.RawMessage) (Result, error) {
+		var p harness.Program
+		if err := json.Unmarshal(raw, &p); err != nil {
+			return Result{}, fmt.Errorf("bad program: %v", err)
+		}
+		return GuardEnum(func() Result { return fn(&p) }), nil
+	}
+}
+
+// enumProps lists the properties whose cases enumerate images / fault plans.
+var enumProps = map[string]bool{"C01": true, "C06": true, "C08": true, "C16": true}
+
+func guardOf(prop string) func(func() Result) Result {
+	if enumProps[prop] {
+		return GuardEnum
+	}
+	return Guard
+}
+
 // HangTimeout bounds the execution of a single case. Sequential cases finish
 // in milliseconds; the bound is generous so that machine load cannot trip it.
 var HangTimeout = 120 * time.Second
 
+// EnumTimeout bounds cases that enumerate crash images / fault plans / header
+// damage after executing their history (minutes of legitimate work in the
+// thorough tier); such a case is never reported as a hang by time alone.
+var EnumTimeout = 60 * time.Minute
+
 // Guard runs a case under a watchdog: a case that does not return is reported
 // as a "hang" violation (the stuck goroutine is abandoned).
-func Guard(fn func() Result) Result {
+func Guard(fn func() Result) Result { return guardFor(HangTimeout, fn) }
+
+// GuardEnum is Guard for enumeration-heavy cases.
+func GuardEnum(fn func() Result) Result { return guardFor(EnumTimeout, fn) }
+
+func guardFor(timeout time.Duration, fn func() Result) Result {
 	done := make(chan Result, 1)
 	go func() { done <- fn() }()
 	select {
 	case r := <-done:
 		return r
-	case <-time.After(HangTimeout):
+	case <-time.After(timeout):
 		return Result{V: &harness.Violation{Clause: "hang", Item: -1,
-			Msg: fmt.Sprintf("case did not finish within %v (deadlock or blocked operation)", HangTimeout)}}
+			Msg: fmt.Sprintf("case did not finish within %v (deadlock or blocked operation)", timeout)}}
 	}
 }
 
